@@ -111,35 +111,9 @@ def run(ctx):
         except Exception as e:
             ctx.violation("surviving chains == reference selection", ctx.exc_witness(e, **desc()), mechanism="ConfigLoader raises on a card with allowed chains")
             continue
-        # known-finding class: a running-width resonance with several decay modes whose minimal l differ (bw_l is taken from the
-        # first declared mode, see known_findings.json)
-        from ..oracle.selection import ref_ls as _ref_ls
-
-        qn_ = {f["name"]: (f["j2"], f["p"]) for f in meta["finals"]}
-        qn_.update({r["name"]: (r["j2"], r["p"]) for r in meta["resonances"]})
-        model_ = {r["name"]: r["model"] for r in meta["resonances"]}
-        modes = {}
-        for c_ in meta["ref_chains"]:
-            for m_, d_ in c_["decays"]:
-                if m_ in model_ and model_[m_] in ("default", "BWR2"):
-                    (ja, pa), (jb, pb), (jc, pc) = qn_[m_], qn_[d_[0]], qn_[d_[1]]
-                    for brk in (False, True):
-                        lsl = _ref_ls(ja, jb, jc, pa, pb, pc, brk)
-                        if lsl:
-                            modes.setdefault((m_, brk), set()).add(min(l for l, _s in lsl))
-        bwl_class = any(len(v) > 1 for v in modes.values())
-        kf = " [resonance with decay modes of different minimal l, default bw_l]" if bwl_class else ""
-        # second order-dependent mechanism: the below_threshold option takes the parent mass from creators[0], the first declared parent
-        parents = {}
-        for c_ in meta["ref_chains"]:
-            for m_, d_ in c_["decays"]:
-                for x_ in d_:
-                    # a "creator" is a decay producing x_: it is identified by the mother AND the sibling (both masses enter m_eff)
-                    parents.setdefault(x_, set()).add((m_, tuple(y_ for y_ in d_ if y_ != x_)))
-        bt_slots = [k_.split("->")[0] for k_, o_ in meta["dec_opts"].items() if o_.get("below_threshold")]
-        bt_class = any(len(parents.get(r_["name"], ())) > 1 for r_ in meta["resonances"] if any(r_["name"].startswith(sl.replace(tag, "")) for sl in bt_slots))
-        if bt_class and not kf:
-            kf = " [below_threshold decay of a resonance with several creating decays (parent or sibling candidates)]"
+        # known-finding classes (per-particle state taken from the first declared decay: default bw_l, creators[0]); decided
+        # from the card structure only, shared with C02
+        kf = cards.declaration_order_class(meta)
         ctx.case(cards.card_digest_key(card), nontrivial=len(ref_allowed) >= 2 or has_forbidden)
         ctx.covered("nbody", nb)
         ctx.covered("has_forbidden_candidate", has_forbidden)
